@@ -24,3 +24,5 @@ pub(crate) mod testutil {
 }
 pub mod writer;
 pub mod tables;
+pub mod saslprep_table;
+pub mod sec;
